@@ -9,6 +9,8 @@ import (
 	"encoding/json"
 	"errors"
 	"fmt"
+	"strconv"
+	"strings"
 
 	"github.com/rs/zerolog"
 )
@@ -17,6 +19,7 @@ func init() {
 	families["syslog"] = &syslogFam{}
 	families["levelhook"] = &levelHookFam{}
 	families["ctxstore"] = &ctxStoreFam{}
+	families["levelnames"] = &levelNamesFam{}
 }
 
 // ---- syslog
@@ -303,5 +306,132 @@ func (*ctxStoreFam) play(l *Line, out *rec) error {
 		}
 	}
 	out.emit(map[string]interface{}{"a": "CtxStore", "id": l.ID, "def": h.Def, "ops": h.Ops, "got": got})
+	return nil
+}
+
+// ---- the text form of levels (spec/aux/LevelNames.tla)
+
+type levelNamesFam struct{}
+
+func (*levelNamesFam) define(json.RawMessage) error { return nil }
+
+// abstract text of LevelNames.tla
+type lvText struct {
+	K string `json:"k"`
+	L int    `json:"l"`
+	C string `json:"c"`
+	N int    `json:"n"`
+	F string `json:"f"`
+}
+
+var lvNamed = []int{-1, 0, 1, 2, 3, 4, 5, 6, 7}
+
+var lvJunk = []string{"foo", "1.5", " 1", "info ", "informational", "0x1", "1e1", "\uff19", "99999999999999999999", "--1", "1_0", "tracee"}
+
+func lvCase(s, c string) string {
+	switch c {
+	case "upper":
+		return strings.ToUpper(s)
+	case "mixed":
+		b := []byte(strings.ToLower(s))
+		for i := 0; i < len(b); i += 2 {
+			if b[i] >= 'a' && b[i] <= 'z' {
+				b[i] -= 'a' - 'A'
+			}
+		}
+		return string(b)
+	}
+	return s
+}
+
+func (*levelNamesFam) play(l *Line, out *rec) error {
+	out.emit(map[string]interface{}{"a": "Reset", "id": l.ID})
+	var h struct {
+		Conf   string   `json:"conf"`
+		Texts  []lvText `json:"texts"`
+		Levels []int    `json:"levels"`
+	}
+	if err := json.Unmarshal(l.Ops[0], &h); err != nil {
+		return err
+	}
+	oldF := zerolog.LevelFieldMarshalFunc
+	oldV := []string{zerolog.LevelTraceValue, zerolog.LevelDebugValue, zerolog.LevelInfoValue, zerolog.LevelWarnValue, zerolog.LevelErrorValue, zerolog.LevelFatalValue, zerolog.LevelPanicValue}
+	defer func() {
+		zerolog.LevelFieldMarshalFunc = oldF
+		zerolog.LevelTraceValue, zerolog.LevelDebugValue, zerolog.LevelInfoValue, zerolog.LevelWarnValue, zerolog.LevelErrorValue, zerolog.LevelFatalValue, zerolog.LevelPanicValue = oldV[0], oldV[1], oldV[2], oldV[3], oldV[4], oldV[5], oldV[6]
+	}()
+	// the player's own table of names: what String() must say (strName) and what MarshalText must say (marName)
+	strName := map[int]string{-1: "trace", 0: "debug", 1: "info", 2: "warn", 3: "error", 4: "fatal", 5: "panic", 6: "", 7: "disabled"}
+	switch h.Conf {
+	case "values":
+		zerolog.LevelTraceValue, zerolog.LevelDebugValue, zerolog.LevelInfoValue, zerolog.LevelWarnValue, zerolog.LevelErrorValue, zerolog.LevelFatalValue, zerolog.LevelPanicValue = "trc", "dbg", "inf", "wrn", "err", "ftl", "pnc"
+		strName = map[int]string{-1: "trc", 0: "dbg", 1: "inf", 2: "wrn", 3: "err", 4: "ftl", 5: "pnc", 6: "", 7: "disabled"}
+	case "func":
+		zerolog.LevelFieldMarshalFunc = func(l zerolog.Level) string { return "<" + l.String() + ">" }
+	}
+	marName := map[int]string{}
+	for k, v := range strName {
+		if h.Conf == "func" {
+			v = "<" + v + ">"
+		}
+		marName[k] = v
+	}
+	concrete := func(t lvText) string {
+		switch t.K {
+		case "name":
+			return lvCase(marName[t.L], t.C)
+		case "num":
+			switch t.F {
+			case "plus":
+				return "+" + strconv.Itoa(t.N)
+			case "zeros":
+				if t.N < 0 {
+					return "-00" + strconv.Itoa(-t.N)
+				}
+				return "00" + strconv.Itoa(t.N)
+			}
+			return strconv.Itoa(t.N)
+		case "empty":
+			return ""
+		case "wrapnum":
+			return "<" + strconv.Itoa(t.N) + ">"
+		}
+		return lvJunk[t.N-1]
+	}
+	classify := func(s string, names map[int]string, wrapped bool) lvText {
+		for _, n := range lvNamed {
+			if s == names[n] {
+				return lvText{"name", n, "lower", 0, "plain"}
+			}
+		}
+		if wrapped && len(s) > 2 && s[0] == '<' && s[len(s)-1] == '>' {
+			if i, err := strconv.Atoi(s[1 : len(s)-1]); err == nil && strconv.Itoa(i) == s[1:len(s)-1] {
+				return lvText{"wrapnum", 0, "lower", i, "plain"}
+			}
+		}
+		if i, err := strconv.Atoi(s); err == nil && strconv.Itoa(i) == s {
+			return lvText{"num", 0, "lower", i, "plain"}
+		}
+		return lvText{"junk", 0, "lower", 0, "plain"}
+	}
+	parsed := []map[string]interface{}{}
+	for _, t := range h.Texts {
+		s := concrete(t)
+		lv, err := zerolog.ParseLevel(s)
+		u := zerolog.Level(99) // UnmarshalText assigns the receiver whatever happens
+		uerr := u.UnmarshalText([]byte(s))
+		parsed = append(parsed, map[string]interface{}{"t": t, "text": s, "lvl": int(lv), "err": err != nil, "ulvl": int(u), "uerr": uerr != nil})
+	}
+	strs := []map[string]interface{}{}
+	for _, n := range h.Levels {
+		lv := zerolog.Level(n)
+		m, merr := lv.MarshalText()
+		var back zerolog.Level = 99
+		berr := back.UnmarshalText(m)
+		strs = append(strs, map[string]interface{}{"l": n, "s": classify(lv.String(), strName, false), "m": classify(string(m), marName, h.Conf == "func"),
+			"merr": merr != nil, "back": berr == nil && back == lv})
+	}
+	var nilLevel *zerolog.Level
+	out.emit(map[string]interface{}{"a": "LevelNames", "id": l.ID, "conf": h.Conf, "parsed": parsed, "strs": strs, "nilerr": nilLevel.UnmarshalText([]byte("info")) != nil})
 	return nil
 }
